@@ -71,6 +71,22 @@ func TestHarness(t *testing.T) {
 			n, complete := ExploreBcast(t, progs, job.Params["limit"], func(c BCase) { emit(c) })
 			emit(map[string]any{"explored": n, "complete": complete})
 		}
+	case "ep-replay":
+		var cases []struct {
+			Calls   []EpCall   `json:"calls"`
+			Choices []EpChoice `json:"choices"`
+		}
+		if err := json.Unmarshal(job.Cases, &cases); err != nil {
+			t.Fatal(err)
+		}
+		for _, c := range cases {
+			emit(RunEp(t, c.Calls, FixedEpChooser(c.Choices), true))
+		}
+	case "ep-random":
+		for i := 0; i < job.N; i++ {
+			calls := GenEpCalls(r)
+			emit(RunEp(t, calls, RandomEpChooser(r, calls, job.Params["maxsteps"], job.Params["faultrate"]), true))
+		}
 	default:
 		t.Fatalf("unknown family %q", job.Family)
 	}
